@@ -56,6 +56,25 @@ func main() {
 	case "dump":
 		dump(*repo, args[1], args[2])
 		return
+	case "paramtable":
+		seen := map[string]bool{}
+		var pkgs []string
+		for _, p := range props {
+			for _, k := range p.Pkgs {
+				if !seen[k] {
+					seen[k] = true
+					pkgs = append(pkgs, k)
+				}
+			}
+		}
+		sort.Strings(pkgs)
+		prog, err := Load(*repo, pkgs, false)
+		if err != nil {
+			fmt.Fprintln(os.Stderr, err)
+			os.Exit(2)
+		}
+		dumpParamTable(prog)
+		return
 	}
 	id := args[0]
 	tier := "quick"
